@@ -726,7 +726,7 @@ def run_model(tools, lines_in, d, tag):
     return p.stdout.decode().split("\n")[:len(lines_in)], ""
 
 
-def reduced_spec(spec, step_idx, file, ranges):
+def reduced_spec(spec, step_idx, file, ranges, orders=None):
     """Session restricted to one file (earlier steps keep their edits and the queries of that file)."""
     steps = []
     for i, st in enumerate(spec["steps"][:step_idx + 1]):
@@ -739,6 +739,7 @@ def reduced_spec(spec, step_idx, file, ranges):
     sp = dict(spec)
     sp["steps"] = steps
     sp["ranges"] = {"%d:%s" % (i, file): (ranges if i == step_idx else []) for i in range(step_idx + 1)}
+    sp["orders"] = {k: v for k, v in (orders or {}).items() if k.endswith(":" + file)}
     return sp
 
 
@@ -810,6 +811,7 @@ def run_session(spec, tools, res, stats, sess_rng):
     ls = L.LS(tools.lsbin, root)
     counter = {"n": 0}
     last_answer = {}
+    orders_used = {}
 
     def make_report(si, f, text, ranges):
         def report(what, extra, nf=False, rngs=None):
@@ -817,7 +819,7 @@ def run_session(spec, tools, res, stats, sess_rng):
             stats["problems"] += 1
             if counter["n"] > MAX_REPORTS or len(res.violations) >= 12:
                 return
-            obj = {"kind": "correspondence" if nf else "input", "session": reduced_spec(spec, si, f, rngs or ranges),
+            obj = {"kind": "correspondence" if nf else "input", "session": reduced_spec(spec, si, f, rngs or ranges, orders_used),
                    "file": f, "step": si, "text_sha1": hashlib.sha1(text.encode("utf-8", "replace")).hexdigest(),
                    "replay_cmd": "./check C16 --replay <this file>"}
             if len(text) < 6000:
@@ -927,13 +929,42 @@ def run_session(spec, tools, res, stats, sess_rng):
                 lines = split_lines(text)
                 key = "%d:%s" % (si, f)
                 override = (spec.get("ranges") or {}).get(key)
-                ranges = list(override) if override is not None else []    # filled in after the full answer
                 td = {"textDocument": {"uri": L.uri(p)}}
-
+                known = bool(hf.get("present")) and not hf.get("panic")
+                # the ranges are chosen BEFORE any request, from the lines on which the Project has references
+                if override is not None:
+                    ranges = list(override)
+                elif known:
+                    exp_lines = sorted({x[0] for x in hf["raw"] if x[0] == x[2]})
+                    ranges = det_ranges([(l,) for l in exp_lines], len(lines)) + gen_ranges(sess_rng, len(lines), nranges)
+                else:
+                    ranges = []
+                # request order after the last cache-clearing event: the token cache of the server must not depend on it
+                mode = (spec.get("orders") or {}).get(key)
+                if mode is None and ranges and spec.get("default_order"):
+                    mode = spec["default_order"]
+                if mode is None:
+                    mode = sess_rng.choice(["full_first", "range_first", "range_first", "interleaved"]) if ranges else "full_first"
+                orders_used[key] = mode
+                stats["orders"][mode] = stats["orders"].get(mode, 0) + 1
                 report = make_report(si, f, text, ranges)
 
-                # -- full request
-                r, _ = ls.call("textDocument/semanticTokens/full", td, timeout=300)
+                def ask_full():
+                    r0, _ = ls.call("textDocument/semanticTokens/full", td, timeout=300)
+                    return r0
+
+                def ask_range(rg):
+                    params = dict(td)
+                    params["range"] = {"start": {"line": rg[0], "character": rg[1]}, "end": {"line": rg[2], "character": rg[3]}}
+                    r0, _ = ls.call("textDocument/semanticTokens/range", params, timeout=300)
+                    return r0
+
+                nfirst = {"full_first": 0, "range_first": len(ranges), "interleaved": (len(ranges) + 1) // 2}[mode]
+                range_resps = [ask_range(rg) for rg in ranges[:nfirst]]
+                r = ask_full()
+                range_resps += [ask_range(rg) for rg in ranges[nfirst:]]
+
+                # -- full answer
                 if "error" in r:
                     report("semanticTokens/full answered with an error", {"response": r})
                     continue
@@ -958,8 +989,6 @@ def run_session(spec, tools, res, stats, sess_rng):
                 if toks is None:
                     report("semantic token array length is not a multiple of 5", {"data_len": len(data)})
                     continue
-                if override is None:
-                    ranges.extend(det_ranges(toks, len(lines)) + gen_ranges(sess_rng, len(lines), nranges))
                 probs = oracle_tokens(toks, lines, legend)
                 if probs:
                     report("semanticTokens/full is not a well-formed encoding: " + probs[0],
@@ -975,12 +1004,30 @@ def run_session(spec, tools, res, stats, sess_rng):
                     stats["files_with_duplicate_positions"] += 1
                 if any(x[0] != x[2] for x in hf["raw"]):
                     stats["files_with_multiline_positions"] += 1
-                # -- range requests
+                # -- the answer must be a function of the document, not of the request history: after range requests came
+                #    first, a no-op didChange (same text; clears the server's caches) must leave the full answer unchanged
+                if mode != "full_first" and "lines" not in hf and (spec.get("noop_recheck") or len(hf["raw"]) <= 1500):
+                    if p in opened:
+                        opened[p] += 1
+                        ls.notify("textDocument/didChange", {"textDocument": {"uri": L.uri(p), "version": opened[p]},
+                                                             "contentChanges": [{"text": text}]})
+                    else:
+                        opened[p] = 1
+                        ls.notify("textDocument/didOpen", {"textDocument": {"uri": L.uri(p), "languageId": "vhdl",
+                                                                            "version": 1, "text": text}})
+                    texts[p] = text
+                    r2 = ask_full()
+                    stats["noop_rechecks"] += 1
+                    t2 = decode(r2["result"]["data"]) if r2.get("result") else None
+                    if t2 != toks:
+                        report("semanticTokens/full depends on the request history: after range requests it has %d tokens (last on "
+                               "line %s), after a no-op didChange of the same text %d tokens (last on line %s)" %
+                               (len(toks), toks[-1][0] if toks else "-", len(t2 or []), t2[-1][0] if t2 else "-"),
+                               {"request": "full", "order": mode, "first_requests": ranges[:nfirst],
+                                "after_ranges_head": toks[:10], "after_noop_change_head": (t2 or [])[:10]})
+                # -- range answers
                 range_answers = []
-                for rg in ranges:
-                    params = dict(td)
-                    params["range"] = {"start": {"line": rg[0], "character": rg[1]}, "end": {"line": rg[2], "character": rg[3]}}
-                    rr, _ = ls.call("textDocument/semanticTokens/range", params, timeout=300)
+                for rg, rr in zip(ranges, range_resps):
                     if "error" in rr or rr.get("result") is None:
                         report("semanticTokens/range answered with an error / null", {"response": str(rr)[:500], "range": rg}, rngs=[rg])
                         range_answers.append(None)
@@ -997,7 +1044,7 @@ def run_session(spec, tools, res, stats, sess_rng):
                     if rt != expect:
                         report("semanticTokens/range differs from the tokens of the full answer that touch lines %d..%d "
                                "(got %d tokens, expected %d)" % (rg[0], rg[2], len(rt or []), len(expect)),
-                               {"request": "range", "range": rg, "got_head": (rt or [])[:20], "expected_head": expect[:20]},
+                               {"request": "range", "range": rg, "order": mode, "got_head": (rt or [])[:20], "expected_head": expect[:20]},
                                rngs=[rg])
                 # -- correspondence: extracted map_and_sort + encode on the harness dump
                 raw = ";".join(",".join(str(v) for v in x) for x in hf["raw"])
@@ -1194,7 +1241,8 @@ def corpus_sessions():
             steps.append({"disk": {k: (None if v is None else {"text": v}) for k, v in (st.get("disk") or {}).items()},
                           "toml": st.get("toml"), "notify": st.get("notify"), "edit": None, "query": st["query"]})
         out.append({"name": "corpus_" + c["name"], "toml": c["toml"], "files": files, "steps": steps, "nranges": 5,
-                    "hier": c.get("hier", True), "fresh_compare": c.get("fresh_compare", False)})
+                    "hier": c.get("hier", True), "fresh_compare": c.get("fresh_compare", False), "noop_recheck": True,
+                    "orders": c.get("orders"), "default_order": c.get("default_order", "range_first")})
     return out
 
 
@@ -1473,7 +1521,7 @@ def new_stats():
             "coq_sample": [], "samples": [], "sessions": [],
             "analysis_panics_outside_c16": [], "server_deaths_outside_c16": [],
             "reloads": 0, "fresh_compared": 0, "reload_text_differs_from_disk": 0,
-            "batched_changes": 0, "batched_changes_order_matters": 0}
+            "batched_changes": 0, "batched_changes_order_matters": 0, "orders": {}, "noop_rechecks": 0}
 
 
 def merge_stats(into, st):
@@ -1596,7 +1644,10 @@ def main(tier, replay=None):
         "change + reload, oracle against the text the Project holds (harness dump); (batched) didChange notifications carrying 2-4 "
         "incremental content changes (bottom-up multi-cursor, top-down in post-edit coordinates, unordered; insert/delete/replace, "
         "multi-line, interacting ranges): oracle and model use the CLIENT's text (changes spliced in listed order), final answers "
-        "compared with a fresh server opened on that text. Quick tier: the corpus, a seed-dependent sample of 12 "
+        "compared with a fresh server opened on that text. The order of the token requests after each cache-clearing event is "
+        "randomised per file (full first / all ranges first / interleaved; corpus: ranges first); the ranges are chosen before any "
+        "request from the Project's reference lines; every answer is compared with the extracted model on the Project's references, "
+        "and after range-first orders a no-op didChange + second full request must reproduce the full answer. Quick tier: the corpus, a seed-dependent sample of 12 "
         "bundled files (three of the six largest always), one generated project, 8 mutated groups, fewer edits/reloads; thorough: "
         "everything. Sessions run in 8 worker processes. Per file: full request; 3 line ranges derived from the answer (line of the "
         "first token; middle token's line to last token's line; inverted) + 2 (corpus 5, thorough 9) random ranges (single line, empty, "
